@@ -1,7 +1,7 @@
 // C42: table-driven binding of the C API (cwrapper.h) and of the C++
 // Expression wrapper (expression.h).  DESIGN.md section 6 (C42), Appendix C.
 //
-//   (capi_env [raw])                      -> {"obj":"CapiEnv"}
+//   (capi_env "tag1,tag2")                -> {"obj":"CapiEnv"}   (active known-finding tags)
 //   (capi $env "fn" [i0 i1 ...] "s" d:..) -> one observation (JSON object)
 //
 // The environment owns genuine C handles (basic_new_heap, vecbasic_new, ...).
@@ -31,6 +31,7 @@
 #include <chrono>
 #include <cmath>
 #include <cstring>
+#include <set>
 #include <sstream>
 
 // The opaque C types.  These definitions are token-for-token the ones of
@@ -107,6 +108,10 @@ size_t mp_bit_length(const integer_class &z)
 #endif
 }
 
+// set per step from the environment's active known-finding tags
+bool g_gamma_tag = false; // tag gamma_half_integer_int_overflow is active
+bool g_gamma_hit = false; // the tag's tighter bound was what made est() saturate
+
 // upper bound (log2) of the size of the numbers that evaluating `b` can build
 double est(const Basic &b, const map_basic_basic *m = nullptr, int depth = 0)
 {
@@ -148,10 +153,16 @@ double est(const Basic &b, const map_basic_basic *m = nullptr, int depth = 0)
         mx = std::max(mx, est(*a, m, depth + 1));
     if (is_a<Gamma>(b) || is_a<LogGamma>(b) || is_a<Beta>(b) || is_a<LowerGamma>(b) || is_a<UpperGamma>(b)
         || is_a<PolyGamma>(b) || is_a<Zeta>(b) || is_a<Dirichlet_eta>(b)) {
-        // gamma & co. of numbers: factorial growth, and gamma_multiple_2 (functions.cpp) multiplies odd
-        // numbers in an `int` that overflows from gamma(23/2) on (a C08 finding): keep arguments small
-        if (mx > 4)
+        // gamma & co. of numbers: factorial growth
+        if (mx > 10)
             return SAT;
+        // known finding (tag gamma_half_integer_int_overflow): gamma_multiple_2 (functions.cpp)
+        // multiplies odd numbers in an `int` that overflows from gamma(23/2) on; while the tag is
+        // active the arguments are kept so small that no sum of two of them gets there
+        if (g_gamma_tag && mx > 4) {
+            g_gamma_hit = true;
+            return SAT;
+        }
     }
     return std::min(SAT, mx + 8);
 }
@@ -272,7 +283,9 @@ struct LamSlot {
 };
 
 struct Env {
-    bool raw = false; // true: known-defect exclusions are switched off
+    // tags of the known findings that are active (known_findings.json entry listed for C42 whose
+    // reproducer still fails): only these are excluded by construction, see Step::known()
+    std::set<std::string> tags;
     long next_id = 0;
     std::vector<basic_struct *> h;
     std::vector<Slot<CVecBasic>> vec;
@@ -755,10 +768,16 @@ struct Step {
         r.put("m", it);
         return r;
     }
-    void known(const char *tag)
+    // exclusion of a recorded library defect: applies iff its tag is active; otherwise the
+    // input is executed and judged like any other
+    bool tag(const char *t) const
     {
-        if (!e.raw)
-            throw Decline(std::string("known:") + tag);
+        return e.tags.count(t) != 0;
+    }
+    void known(const char *t)
+    {
+        if (tag(t))
+            throw Decline(std::string("known:") + t);
     }
 };
 
@@ -796,9 +815,20 @@ std::string take_str(char *p)
 
 OP(capi_env)
 {
+    // (capi_env "tag1,tag2,...") : the active known-finding tags
     auto e = std::make_shared<Env>();
-    if (!a.empty())
-        e->raw = argFlag(a, 0);
+    if (!a.empty() && a[0].k == Val::STR) {
+        const std::string &t = a[0].s;
+        size_t p = 0;
+        while (p < t.size()) {
+            size_t q = t.find(',', p);
+            if (q == std::string::npos)
+                q = t.size();
+            if (q > p)
+                e->tags.insert(t.substr(p, q - p));
+            p = q + 1;
+        }
+    }
     return Val::object("CapiEnv", e);
 }
 
@@ -870,8 +900,16 @@ static Val op_capi_inner(Args &a)
         s.dv = argDbl(a, 4);
     s.res.put("fn", Val::str(fn));
     auto tb = std::chrono::steady_clock::now();
+    g_gamma_tag = e->tags.count("gamma_half_integer_int_overflow") != 0;
+    g_gamma_hit = false;
     try {
         it->second(s);
+    } catch (Decline &d) {
+        prof_bind += std::chrono::duration<double>(std::chrono::steady_clock::now() - tb).count();
+        s.cleanup();
+        if (g_gamma_hit && std::string(d.what()).compare(0, 8, "resource") == 0)
+            throw Decline("known:gamma_half_integer_int_overflow (tighter resource bound)");
+        throw;
     } catch (...) {
         prof_bind += std::chrono::duration<double>(std::chrono::steady_clock::now() - tb).count();
         s.cleanup();
